@@ -80,6 +80,7 @@ class KaniUnitFile:
         return "\n".join(out)
 
     def _parse(self, text):
+        self.wraps_known = []
         text = self._expand(text)
         body = []
         cur_contract = None
@@ -99,6 +100,9 @@ class KaniUnitFile:
                     self.profile = v
                 elif k == "assume":
                     self.assumes.append(v)
+                elif k == "wraps_known":
+                    # an arithmetic wrap (release semantics) that is known, examined and harmless: `desc @ function`
+                    self.wraps_known.append(v)
                 continue
             m = re.match(r"\s*//@ contract (.+)$", ln)
             if m:
@@ -166,6 +170,10 @@ def prepare_scratch(unit_files, profile):
     copy_repo(d)
     with open(os.path.join(d, "Cargo.toml"), "a") as f:
         f.write('\n[patch.crates-io]\nbacktrace = { path = "%s/vendor/backtrace-0.3.76" }\n' % VERIF)
+        if profile == "release-arith":
+            # native playback of a counterexample runs the real code with the shipped (wrapping) arithmetic;
+            # Kani's own overflow checks during verification do not depend on this setting
+            f.write('\n[profile.dev]\noverflow-checks = false\n[profile.test]\noverflow-checks = false\n')
     sources = []
     by_target = {}
     crates = set()
@@ -389,9 +397,9 @@ def run_units(prop, unit_files, tier, jobs=None, harness_timeout=None, only=None
                         wraps = [x for x in r["fails"] if re.match(r"attempt to .* with overflow", x[0])]
                         for dsc, loc in wraps:
                             k = "%s @ %s" % (dsc, loc_key(loc))
-                            u.extra.setdefault("arithmetic_wraps_not_explored_beyond", [])
-                            if k not in u.extra["arithmetic_wraps_not_explored_beyond"]:
-                                u.extra["arithmetic_wraps_not_explored_beyond"].append(k)
+                            u.extra.setdefault("arithmetic_wraps", [])
+                            if k not in u.extra["arithmetic_wraps"]:
+                                u.extra["arithmetic_wraps"].append(k)
                         u.obligations -= len(wraps)
                     unsupported = [x for x in r["fails"] if "not currently supported by Kani" in x[0]
                                    or "is not supported by Kani" in x[0]]
@@ -401,6 +409,20 @@ def run_units(prop, unit_files, tier, jobs=None, harness_timeout=None, only=None
                     real = [(dsc, loc) for dsc, loc in r["fails"]
                             if "unwinding assertion" not in dsc and (dsc, loc) not in wraps
                             and (dsc, loc) not in unsupported]
+                    # a wrap at a site the unit does not list as known: Kani cuts the path there, so what the shipped
+                    # (wrapping) build does with the value is unexplored.  It becomes a failure marked `wrap`; ./check
+                    # replays Kani's input natively with wrapping arithmetic: a panic there is a violation with its
+                    # failing input, anything else leaves the harness undecided (never a pass)
+                    uf0 = [x for x in cufs if x.name == meta["unit"]][0]
+                    new_wraps = [(dsc, loc) for dsc, loc in wraps
+                                 if not any(kw in ("%s @ %s" % (dsc, loc_key(loc))) for kw in uf0.wraps_known)]
+                    for dsc, loc in new_wraps:
+                        f = {"unit": u.name, "harness": h, "harness_full": full, "wrap": True,
+                             "key": "%s :: %s (release arithmetic wraps here; what follows the wrap) :: %s" % (h, dsc, loc_key(loc)),
+                             "description": dsc, "location": loc, "refutation": True,
+                             "crate": crate, "profile": profile, "kind": meta["kind"], "output": r["raw"]}
+                        u.failures.append(f)
+                        all_fail.append(f)
                     unw = [x for x in r["fails"] if "unwinding assertion" in x[0]]
                     if unw and not real:
                         undecided.append("harness %s: unwinding bound too small (%s)" % (h, unw[0][1]))
@@ -471,7 +493,14 @@ def replay(failure, scratch, out_path):
         open(out_path, "w").write("\n".join(report))
         return None, txt
     cmd2 = ["cargo", "kani", "playback", "-Z", "concrete-playback", "-p", crate, "--", test]
-    rc2, txt2, _ = run(cmd2, cwd=scratch, timeout=3600)
+    env2 = None
+    if failure.get("profile") == "release-arith":
+        # the property is stated for the shipped (release) arithmetic: play the input back with wrapping arithmetic
+        from common import env_offline
+        env2 = env_offline()
+        env2["RUSTC_WRAPPER"] = os.path.join(VERIF, "tools", "rustc_wrapping_arith.sh")
+        report += ["", "(native run compiled with -C overflow-checks=off through RUSTC_WRAPPER: release arithmetic)"]
+    rc2, txt2, _ = run(cmd2, cwd=scratch, timeout=3600, env=env2)
     failed_native = ("test result: FAILED" in txt2) or ("panicked at" in txt2 and rc2 != 0)
     passed = "test result: ok. 1 passed" in txt2
     # the native panic must be the one the verifier reported (same message or same source file)
@@ -487,6 +516,9 @@ def replay(failure, scratch, out_path):
             # failure inside std (unwrap_failed, slice index ...): accept any panic raised from
             # the same workspace function chain; the report carries the native message
             same = True
+    if failure.get("wrap") and failed_native:
+        # the obligation is "what follows the arithmetic wrap does not panic": any native panic on this input refutes it
+        same = True
     reproduced = failed_native and same
     keep = [l for l in txt2.split("\n") if "panicked" in l or "test result" in l
             or l.startswith("test ") or "assertion" in l or l.startswith("error")]
